@@ -1,0 +1,14 @@
+//go:build verif
+
+package peer
+
+// VerifPendingReads returns the number of ReadIndex requests still waiting
+// for their read state (verification harness only).
+func (p *Peer) VerifPendingReads() int {
+	if p == nil {
+		return 0
+	}
+	p.readMu.Lock()
+	defer p.readMu.Unlock()
+	return len(p.pendingReads)
+}
